@@ -7,4 +7,8 @@ if ! /venv/bin/python -c "import hypothesis" 2>/dev/null; then
   PIP_NO_INDEX=1 /venv/bin/pip install --no-index --find-links /opt/veriftools/wheels hypothesis
 fi
 /venv/bin/python -c "import hypothesis, numpy, scipy, mpmath, casadi, sympy, simpy; print('deps ok: hypothesis', hypothesis.__version__)"
+# optional: atheris (coverage-guided campaigns of the C19 thorough tier), into a private directory
+if [ ! -d .deps/atheris ]; then
+  PIP_NO_INDEX=1 /venv/bin/pip install -q --no-index --find-links /opt/veriftools/wheels --target .deps atheris >/dev/null 2>&1 || echo "atheris not installed (C19 thorough campaigns will be skipped)"
+fi
 mkdir -p evidence replays
